@@ -101,12 +101,13 @@ pub fn gen_def(
                     let body_env = generate(body, &body_env, ctx, constr)?;
 
                     // After the body's own constraints, as for the expression of a variable: what
-                    // the body is must be known before it is held to the return type.
+                    // the body is must be known before it is held to the return type. The body is
+                    // named as it names itself: self and the arguments as they are mapped inside.
                     constr.add(
                         "fun body type",
                         &ret_ty_raises_exp,
                         &Expected::from(body),
-                        env,
+                        &body_env,
                     );
                     body_env
                 } else {
